@@ -27,6 +27,7 @@ pub struct Sys {
     pub seen_cmds: HashMap<String, u64>,
     pub router_csr: BgpsecCsr,
     pub full_obs: bool,
+    pub rp_on: bool,
     pub t0: i64,
     _rt: tokio::runtime::Runtime,
     scratch: Scratch,
@@ -146,6 +147,7 @@ impl Sys {
         Sys {
             krill, actor, canon: Canon::default(), seen_cmds: HashMap::new(), router_csr,
             full_obs: cfg.get("obs").map(|s| s != "min").unwrap_or(true),
+            rp_on: cfg.get("rp").map(|s| s != "0").unwrap_or(true),
             t0: unix_now(),
             _rt: rt, scratch,
         }
@@ -448,6 +450,44 @@ impl Sys {
         res
     }
 
+    /// Top-down relying-party validation of the publication server's current content.
+    pub fn rp_report(&mut self, quiescent: bool) -> Value {
+        let cm = self.krill.ca_manager();
+        let ta = match cm.get_trust_anchor_proxy().and_then(|p| p.get_ta_details().map(|d| d.cert.to_bytes().to_vec())) {
+            Ok(b) => b,
+            Err(e) => return json!({"error": format!("no ta cert: {e}")}),
+        };
+        let mut objs = BTreeMap::new();
+        for (_, files) in self.repo_objects() {
+            for (uri, content) in files {
+                objs.insert(uri, content);
+            }
+        }
+        let input = kharness::rp::RpInput { ta_cert_der: &ta, objects: &objs, now: rpki::repository::x509::Time::now() };
+        let rep = kharness::rp::walk(&input);
+        let problems: Vec<Value> = rep.problems.iter().map(|p| json!({"uri": self.canon.text(&p.uri), "kind": p.kind, "detail": p.detail.chars().take(120).collect::<String>()})).collect();
+        let per_ca: Vec<Value> = rep.per_ca.iter().map(|c| json!({
+            "mft": self.canon.text(&c.mft_uri), "number": c.manifest_number, "crl_number": c.crl_number,
+            "this_update": c.mft_this_update, "next_update": c.mft_next_update,
+            "crl_this_update": c.crl_this_update, "crl_next_update": c.crl_next_update,
+            "revoked": c.revoked.iter().map(|s| if s.len() > 12 { self.canon.serial(s) } else { s.clone() }).collect::<Vec<_>>(),
+            "listed": c.listed.iter().map(|s| self.canon.text(s)).collect::<Vec<_>>(),
+            "key": self.canon.key(&c.subject_key_id), "issuer_key": self.canon.key(&c.issuer_key_id),
+            "asn": c.asn, "ipv4": c.ipv4, "ipv6": c.ipv6,
+        })).collect();
+        json!({
+            "quiescent": quiescent,
+            "cas_accepted": rep.cas_accepted.iter().map(|s| self.canon.text(s)).collect::<Vec<_>>(),
+            "problems": problems,
+            "vrps": rep.vrps, "aspas": rep.aspas,
+            "router_keys": rep.router_keys.iter().map(|(a, k)| json!([a, self.canon.key(k)])).collect::<Vec<_>>(),
+            "unlisted": rep.unlisted.iter().map(|s| self.canon.text(s)).collect::<Vec<_>>(),
+            "missing": rep.missing.iter().map(|s| self.canon.text(s)).collect::<Vec<_>>(),
+            "n_objects": objs.len(), "n_accepted": rep.objects_accepted.len(),
+            "per_ca": per_ca,
+        })
+    }
+
     fn observe(&mut self, ret: &str) -> Value {
         let mut o = Map::new();
         o.insert("ret".into(), Value::String(ret.to_string()));
@@ -520,7 +560,12 @@ impl Sys {
                 running.push(json!(name));
             }
         }
+        let due = pending.iter().any(|p| p[1] == "due") || !running.is_empty();
         o.insert("tasks".into(), json!({"pending": pending, "running": running}));
+        // relying-party walk (independent oracle, rpki-rs validation) at every observation
+        if self.rp_on {
+            o.insert("rp".into(), self.rp_report(!due));
+        }
         Value::Object(o)
     }
 }
